@@ -12,7 +12,7 @@ import (
 )
 
 func runL2(c Case) *ev.Verdict {
-	v, tr := l2.RunHistory(c.H, l2.Opts{P: "C01", Trusted: true, Batch: c.Batch, Fatal: c.Fatal, FatalKind: c.FatalKind, Net: c.Level == "L3"})
+	v, tr := l2.RunHistory(c.H, l2.Opts{P: "C01", Trusted: true, Batch: c.Batch, Fatal: c.Fatal, FatalKind: c.FatalKind, Net: c.Level == "L3", ObserveEvery: c.Every})
 	if c.Level == "L3" {
 		v.Class("L3-real-grpc")
 	}
@@ -77,6 +77,10 @@ func campaignL2(t *testing.T) {
 		} else {
 			c = drawL2(rt)
 			c.H, wild = hgen.MaybeRename(rt, c.H, 20)
+		}
+		if rapid.IntRange(0, 2).Draw(rt, "sparse-reads?") == 0 {
+			// read back only after every 2nd-5th request
+			c.Every = rapid.IntRange(2, 5).Draw(rt, "every")
 		}
 		if rapid.IntRange(0, 3).Draw(rt, "l3?") == 0 {
 			// the same history over real gRPC (bufconn): transport must not change anything
